@@ -455,20 +455,17 @@ std::unique_ptr<gsl_matrix_complex,void (*)(gsl_matrix_complex*)>>
 SU_vector::GetEigenSystem(bool order) const{
   gsl_vector * eigenvalues = gsl_vector_alloc(dim);
   gsl_matrix_complex * eigenvectors = gsl_matrix_complex_alloc(dim,dim);
-#define SQ(x) ((x)*(x))
-  switch (dim) {
-    case 3:
-          {
-#include <SQuIDS/SU_inc/EigenSystemSU3.txt>
-          }
-          break;
-    default:
-      auto matrix=(*this).GetGSLMatrix();
-      gsl_eigen_hermv_workspace * ws = gsl_eigen_hermv_alloc(dim);
-      gsl_eigen_hermv(matrix.get(),eigenvalues,eigenvectors,ws);
-      gsl_eigen_hermv_free(ws);
+  //The closed-form SU(3) solution (SU_inc/EigenSystemSU3.txt) divides by the
+  //(0,2) matrix element and by differences of eigenvalues, so it yields NaN for
+  //diagonal matrices, projectors and multiples of the identity and loses
+  //orthogonality for nearly degenerate spectra. The numerical solver is valid
+  //for every Hermitian input, so it is used for all dimensions.
+  {
+    auto matrix=(*this).GetGSLMatrix();
+    gsl_eigen_hermv_workspace * ws = gsl_eigen_hermv_alloc(dim);
+    gsl_eigen_hermv(matrix.get(),eigenvalues,eigenvectors,ws);
+    gsl_eigen_hermv_free(ws);
   }
-#undef SQ
   // sorting eigenvalues
   if (order)
     gsl_eigen_hermv_sort(eigenvalues,eigenvectors,GSL_EIGEN_SORT_VAL_ASC);
